@@ -297,6 +297,10 @@ def install_trace():
 
     @functools.wraps(orig_run)
     def run(self, func, func_args, T, dt, dts, solver, **kw):
+        if type(self).__name__ != 'BaseBackend':
+            # the trace records numpy copies of every call: only meaningful (and only possible) on the NumPy backend - a JAX run
+            # traces the function symbolically, torch / fortran hand over their own array types
+            return orig_run(self, func, func_args, T, dt, dts, solver, **kw)
         trace = []
         _state['trace'] = {'calls': trace, 'T': T, 'dt': dt, 'dts': dts, 'solver': solver,
                            'y0': np.array(func_args[1], copy=True), 't0': func_args[0]}
